@@ -12,7 +12,7 @@ BindVol(src, tgt) == M3("type", S("bind"), "source", S(src), "target", S(tgt))
 \* [n, key, alternatives] - one attribute of the service, placed along the chain
 Attrs == <<
   [n |-> "image", k |-> "image", alts |-> {S("img1"), S("img2")}],
-  [n |-> "command", k |-> "command", alts |-> {S("echo hi"), Sq2(S("run"), S("x"))}],
+  [n |-> "command", k |-> "command", alts |-> {S("echo hi"), Sq2(S("run"), S("x")), Null}],
   [n |-> "environment", k |-> "environment", alts |-> {Sq2(S("A=1"), S("B=2")), M1("A", S("9")), Sq1(S("C"))}],
   [n |-> "labels", k |-> "labels", alts |-> {M1("l1", S("x")), Sq2(S("l1=y"), S("l2=z"))}],
   [n |-> "dns", k |-> "dns", alts |-> {S("1.1.1.1"), Sq2(S("8.8.8.8"), S("1.1.1.1"))}],
